@@ -82,6 +82,14 @@ def make_workload(seed: int, idx: int) -> dict:
     arity = 3 if phys == 1 else 4
     v = gen.Vocab(rng, "rdf11", n_ns=3, n_local=6)
     stmts = gen.statements(rng, rng.randint(8, 30), arity, "rdf11", vocab=v)
+    # every workload also carries the same two tagged literals, spelled in ITS OWN case (en / EN / En ...): equal for rdflib,
+    # different on the wire
+    tag = ["en", "EN", "En", "eN"][idx % 4]
+    extra = [(("iri", "http://ex.org/s"), ("iri", "http://ex.org/label"), ("lit", "chat", tag, None)),
+             (("iri", "http://ex.org/s"), ("iri", "http://ex.org/label"), ("lit", "hello", tag + "-gb" if idx % 3 else tag + "-GB", None))]
+    if arity == 4:
+        extra = [st + (("default",),) for st in extra]
+    stmts = extra[:1] + stmts + extra[1:]
     # a handful of option sets shared between workloads (same object for equal slot)
     slot = idx % 3
     cfg = {"physical": phys, "frame_size": [2, 5, 250][slot], "preset": [(8, 2, 2), (16, 4, 4), (4000, 150, 32)][slot],
